@@ -2383,7 +2383,13 @@ func sortedMapKeys(m reflect.Value) []reflect.Value {
 		case reflect.String:
 			return a.String() < b.String()
 		}
-		return fmt.Sprint(a.Interface()) < fmt.Sprint(b.Interface())
+		as, bs := fmt.Sprint(a.Interface()), fmt.Sprint(b.Interface())
+		if as != bs {
+			return as < bs
+		}
+		// Keys of different types can print alike (1 and "1" in a map[interface{}]…):
+		// their type names decide, so the order never depends on map iteration
+		return fmt.Sprintf("%T", a.Interface()) < fmt.Sprintf("%T", b.Interface())
 	})
 	return keys
 }
